@@ -107,6 +107,9 @@ func (s *Solver) Check(decls []string, asserts []string, evals []string) (string
 		body += "\n" + strings.Join(evals, "\n")
 	}
 	sb.WriteString("(declare-fun blen (Int) (_ BitVec 64))\n(declare-fun rlen (Int) (_ BitVec 64))\n")
+	if strings.Contains(body, "cls!") {
+		sb.WriteString("(declare-fun up ((_ BitVec 32)) (_ BitVec 32))\n(declare-fun title ((_ BitVec 32)) (_ BitVec 32))\n(declare-fun low ((_ BitVec 32)) (_ BitVec 32))\n")
+	}
 	sb.WriteString(tokenPreamble(body))
 	for _, d := range decls {
 		sb.WriteString(d)
